@@ -92,6 +92,7 @@ Fixpoint mapi_aux {A B} (f : Z -> A -> B) (i : Z) (l : list A) : list B :=
 Definition mapi {A B} (f : Z -> A -> B) (l : list A) : list B := mapi_aux f 0 l.
 Fixpoint remove_first {A} (eqb : A -> A -> bool) (x : A) (l : list A) : list A :=
   match l with [] => [] | y :: l' => if eqb x y then l' else y :: remove_first eqb x l' end.
+Fixpoint rangeZ_aux (n : nat) (lo : Z) : list Z := match n with O => [] | S n' => lo :: rangeZ_aux n' (lo + 1) end.
 Definition memZ (x : Z) (l : list Z) : bool := existsb (Z.eqb x) l.
 Fixpoint last_opt {A} (l : list A) : option A :=
   match l with [] => None | [x] => Some x | _ :: l' => last_opt l' end.
